@@ -5,6 +5,12 @@ mod stubs;
 #[cfg(kani)]
 mod build;
 #[cfg(kani)]
+mod c33;
+#[cfg(kani)]
+mod c35;
+#[cfg(kani)]
 mod c36;
 #[cfg(kani)]
 mod c37;
+#[cfg(kani)]
+mod probe;
